@@ -110,19 +110,19 @@ func main() {
 	case "auditfmt":
 		err = traceAuditFmt(o)
 	case "db":
-		watchdog(fam, 90*time.Second)
+		watchdog(fam, 180*time.Second)
 		err = traceDB(o)
 	case "cli":
 		err = traceCLI(o)
 	case "bytes":
 		err = traceBytes(o)
 	case "conc":
-		watchdog(fam, 120*time.Second)
+		watchdog(fam, 240*time.Second)
 		err = traceConc(o)
 	case "fields":
 		err = traceFields(o)
 	case "http":
-		watchdog(fam, 90*time.Second)
+		watchdog(fam, 180*time.Second)
 		err = traceHTTP(o)
 	case "fs":
 		err = traceFS(o)
